@@ -1,8 +1,20 @@
 #!/bin/sh
 # usage: run.sh <ID> <tier>   — rebuilds the harness against /repo's working tree, then runs the check
+# (experiments only: VERIF_ALT_REPO=<scratch copy of the repository> builds and runs against that copy instead,
+#  with evidence/replays/scratch under /verif/.work/alt-*; the registered commands never set it)
 export GOFLAGS=-mod=mod GOPROXY=off GOSUMDB=off GOTOOLCHAIN=local
 cd /verif/mc || exit 2
 mkdir -p /verif/bin
+if [ -n "$VERIF_ALT_REPO" ]; then
+  A=/verif/.work/alt-$(echo "$VERIF_ALT_REPO" | md5sum | cut -c1-10)
+  mkdir -p $A
+  sed "s#=> /repo#=> $VERIF_ALT_REPO#" go.mod > $A/go.mod
+  cp $VERIF_ALT_REPO/go.sum $A/go.sum
+  export VERIF_ALT_MODFILE=$A/go.mod VERIF_ALT_OUT=$A
+  go build -modfile=$A/go.mod -o $A/mc . || exit 2
+  if [ "$1" = replay ]; then exec $A/mc replay "$2"; fi
+  exec $A/mc check "$1" --tier "${2:-quick}"
+fi
 cmp -s /repo/go.sum go.sum || cp /repo/go.sum go.sum
 if ! go build -o /verif/bin/mc.$$ . 2>/verif/bin/build.$$.err; then
   echo "harness: build against /repo working tree failed:" >&2
